@@ -304,6 +304,10 @@ func (c *compiler) compile() (WarriorData, error) {
 		// c.values["CURLINE"] = []token{{tokNumber, fmt.Sprintf("%d", len(code))}}
 	}
 
+	if Address(len(code)) > c.config.Length {
+		return WarriorData{}, fmt.Errorf("program has %d instructions, the maximum length is %d", len(code), c.config.Length)
+	}
+
 	startExpr, err := c.expandExpression(c.startExpr, 0)
 	if err != nil {
 		return WarriorData{}, fmt.Errorf("invalid start expression")
